@@ -182,6 +182,10 @@ class Sweep:
             # Return an empty sweep with no dimensions if no items match the filter keys
             return Sweep({})
 
+        if self.exclude is None and len(self) == 0:
+            # An empty dimension: there are no combinations, hence no projections either
+            return Sweep({})
+
         dims: list[str | tuple[str, ...]]
         if self.dims is None or set(self.dims) == self.items.keys():
             dims = [k for k in self.items if k in keys]
